@@ -201,7 +201,9 @@ theorem refEdit_gi {env env' : Env} {lt : Node → Node → Prop} {s s' : St} {r
 
 /-! ### formula and flag edits -/
 
-/-- an edit of the definition (formula, cache flag, `allow_none`) of cells `c` only -/
+/-- a change of the definition (formula, cache flag, `allow_none`) of cells `c` only – the
+environments `setFormula_cinv` relates when `clear_obj(c)` IS performed (modelx performs it for
+formula and flag edits, not for an `allow_none` edit) -/
 structure CellEdit (env env' : Env) (c : CellId) : Prop where
   formula : ∀ n : Node, n.1 ≠ c → env'.formula n = env.formula n
   cached : ∀ c', c' ≠ c → env'.cached c' = env.cached c'
